@@ -715,6 +715,7 @@ impl World {
                     return Outcome::Nop;
                 }
                 let n = self.reps[r].doc.rollback();
+                self.purge_pool(r);
                 Outcome::RolledBack { r, ops: n }
             }
             Ev::Send { from, to, what, enc, batch } => {
@@ -1327,6 +1328,12 @@ impl World {
         }
     }
 
+    /// ids handed out inside a transaction that was rolled back name nothing (and may be reused by later objects)
+    fn purge_pool(&mut self, r: usize) {
+        let doc = &self.reps[r].doc;
+        self.pool.retain(|p| p.creator != r || p.id == ROOT || doc.object_type(&p.id).is_ok());
+    }
+
     pub fn pick_heads(&self, r: usize, sel: u32) -> Option<Vec<Hash>> {
         // head sets all of whose hashes replica r has applied
         let cands: Vec<&Vec<Hash>> = self
@@ -1479,6 +1486,7 @@ impl World {
         // a crash loses the open transaction
         if self.reps[r].doc.pending_ops() > 0 {
             self.reps[r].doc.rollback();
+            self.purge_pool(r);
             self.stats.bump("fault.crash_lost_open_tx");
         }
         if self.reps[r].isolated.is_some() {
